@@ -53,6 +53,7 @@ type Program struct {
 	HlthSSA *ssa.Package
 
 	cg        *callgraph.Graph
+	effects   *Effects
 	modFuncs  []*ssa.Function // all functions (incl. anonymous) of module packages
 	nAllFuncs int
 }
